@@ -54,6 +54,11 @@ def oracle_c15(r):
             base = n.split('.')[0].split(':')[0] + '.' + n.split('.')[1]
             if base in SIGNED_BY_DESIGN:
                 continue
+            if x >= -0.015:
+                # one cent below zero: a rounding artefact class of its own (keyed by year and line), so that a recorded
+                # finding of this kind never hides a line going properly negative
+                probs.append((f"negative-cent:{r['year']}:{base}", f'{n} = {x} is negative (by a cent) although all input amounts are non-negative'))
+                continue
             probs.append(('negative:' + base, f'{n} = {x} is negative although all input amounts are non-negative'))
     return probs
 
